@@ -1,7 +1,9 @@
 package saslauthenticate
 
 import (
+	"bytes"
 	"encoding/binary"
+	"fmt"
 	"io"
 
 	"github.com/segmentio/kafka-go/protocol"
@@ -42,13 +44,25 @@ func (r *Request) readResp(read io.Reader) (protocol.Message, error) {
 		return nil, err
 	}
 	respLen := int32(binary.BigEndian.Uint32(lenBuf[:]))
-	data := make([]byte, respLen)
+	if respLen < 0 {
+		return nil, fmt.Errorf("invalid sasl authentication response length: %d", respLen)
+	}
+	// The length comes from the network: grow the buffer as the bytes arrive
+	// rather than allocating whatever size the peer announced.
+	prealloc := int(respLen)
+	if prealloc > 4096 {
+		prealloc = 4096
+	}
+	data := bytes.NewBuffer(make([]byte, 0, prealloc))
 
-	if _, err := io.ReadFull(read, data[:]); err != nil {
+	if _, err := io.CopyN(data, read, int64(respLen)); err != nil {
+		if err == io.EOF {
+			err = io.ErrUnexpectedEOF
+		}
 		return nil, err
 	}
 	return &Response{
-		AuthBytes: data,
+		AuthBytes: data.Bytes(),
 	}, nil
 }
 
